@@ -1107,7 +1107,9 @@ func (c *checker) bfs(sc storeCfg, sn scenario) {
 	r := c.r
 	dump := os.Getenv("VERIF_C15_DUMP") // debugging aid: print every finding whose class contains this text
 	t0 := time.Now()
-	defer func() { r.Note(fmt.Sprintf("wall_s:%s:%s", sn.name, sc.label()), fmt.Sprintf("%.1f", time.Since(t0).Seconds())) }()
+	defer func() {
+		r.Note(fmt.Sprintf("wall_s:%s:%s", sn.name, sc.label()), fmt.Sprintf("%.1f", time.Since(t0).Seconds()))
+	}()
 	init := &state{cur: emptyContent()}
 	seen := map[string]bool{init.canon(): true}
 	r.State(1)
